@@ -28,12 +28,12 @@ func profC08() spec.Profile {
 func c08MapScripts(k *h.Case, g *spec.Gen) *spec.MapScripts {
 	r := k.R
 	m := &spec.MapScripts{ID: g.Prog.NewID(), Name: g.Name("Map"), Scope: r.IntN(3)}
-	types := []string{"MAP_SCRIPT_ON_LOAD", "MAP_SCRIPT_ON_TRANSITION", "MAP_SCRIPT_ON_RESUME", "MAP_SCRIPT_ON_FRAME_TABLE", "MAP_SCRIPT_ON_WARP_INTO_MAP_TABLE", "MAP_SCRIPT_ON_DIVE_WARP", "MAP_SCRIPT_ON_RETURN_TO_FIELD", "MAP_SCRIPT_X", "TYPE_Ü"}
+	types := []string{"MAP_SCRIPT_ON_LOAD", "MAP_SCRIPT_ON_TRANSITION", "MAP_SCRIPT_ON_RESUME", "MAP_SCRIPT_ON_FRAME_TABLE", "MAP_SCRIPT_ON_WARP_INTO_MAP_TABLE", "MAP_SCRIPT_ON_DIVE_WARP", "MAP_SCRIPT_ON_RETURN_TO_FIELD", "MAP_SCRIPT_X", "TYPE_Ü", "MAP_SCRIPT_ON_WARP_INTO_MAP", "MAP_SCRIPT_ON_FRAME"}
 	r.Shuffle(len(types), func(i, j int) { types[i], types[j] = types[j], types[i] })
 	n := r.IntN(9)
 	for i := 0; i < n; i++ {
 		e := &spec.MSEntry{ID: g.Prog.NewID(), Type: types[i], Kind: r.IntN(3)}
-		if i > 0 && r.IntN(8) == 0 {
+		if i > 0 && r.IntN(14) == 0 {
 			// the same type again: fine for plain entries (the header just lists both); two entries that both
 			// need the label <map>_<TYPE> cannot both be emitted, so the compiler has to reject those
 			e.Type = m.Entries[r.IntN(i)].Type
@@ -434,7 +434,7 @@ func runC08(ctx *h.Ctx) int {
 		_ = maps
 		k.Sample("mapscripts", pr.Src)
 	})
-	rejectGuard(ctx, 0.4)
+	rejectGuard(ctx, 0.5)
 	return ctx.Finish(
 		"mapscripts statements with 0..8 entries mixing plain (T: Label), inline (T { body }) and table (T [ var, value: Label | var, value { body } ]) entries in any order, 0..6 rows, multi-token vars/values, both scopes; inline bodies with control flow, inline text and poryswitch. Oracle: header lists plain+inline entries in source order, then table entries in source order, then .byte 0; each table label defined once, local, rows in source order with the written var/value, then .2byte 0; every inline label (read from the header/table, not from a naming rule) defined once and local; VM trace from each inline label equals the reference run of the body and the VM trace of the same body compiled as a script statement. distinct = entry-kind/row-kind signature",
 		ctx.N(300, 3000),
